@@ -21,6 +21,7 @@ def run(repo, res, tier):
         "and Token methods. Rules: T1 (a production that fails with a plain ValueError after consuming tokens "
         "lets the caller continue => statements silently dropped), T2 (a handler can swallow LexerError), "
         "T5 (send into an occupied push-back slot), T8 (value-returning production can fall off its end), "
+        "T9 (must-pass-through: a block production returns only after its end statement was parsed), "
         "L-YIELD (every lexer yield is inside the try that converts a thrown ValueError to LexerError). "
         "Decides the error-signalling contract, not completeness of the grammar.")
     res.assumptions = ["generator protocol of next/send/throw (frozen table, DESIGN 2.5)",
@@ -31,6 +32,12 @@ def run(repo, res, tier):
     t2 = parserules.add_rule(res, an, "T2")
     t5 = parserules.add_rule(res, an, "T5")
     t8 = parserules.add_rule(res, an, "T8")
+    t9 = parserules.add_rule(res, an, "T9")
+    blocks = parserules.event_sites(an, "block_exits")
+    res.floor("block productions", len(blocks), 1)
+    for b in blocks:
+        res.oblige("T9", f"{b}: every return is preceded by a successful parse_end_aggregation on its path",
+                   ok=not any(f.function == b for f in t9))
     hs = parserules.handlers(an)
     t2keys = {(f.function, f.anchor) for f in t2}
     t1handlers = set()
